@@ -15,7 +15,7 @@ fn rd64(bs: &[u8], at: usize) -> u64 {
 
 /// Error classification of `Fst::new` for every byte string of length <= N.
 fn classify<const N: usize>() {
-    let buf: [u8; N] = kani::any();
+    let buf: [u8; N] = crate::util::sym_bytes::<N>();
     let len: usize = kani::any();
     kani::assume(len <= N);
     let bs = &buf[..len];
@@ -66,16 +66,16 @@ fn classify<const N: usize>() {
 }
 
 #[kani::proof]
-#[kani::unwind(17)]
+#[kani::unwind(42)]
 fn c10_classify_40() {
     classify::<40>();
 }
 
 /// Shorter-than-minimum inputs are Format errors, per version (32 / 32 / 36).
 #[kani::proof]
-#[kani::unwind(9)]
+#[kani::unwind(38)]
 fn c10_short_inputs() {
-    let buf: [u8; 36] = kani::any();
+    let buf: [u8; 36] = crate::util::sym_bytes::<36>();
     let len: usize = kani::any();
     kani::assume(len < 36);
     let bs = &buf[..len];
@@ -96,9 +96,9 @@ fn c10_short_inputs() {
 
 /// Every version value with a full-length body: 0 and > 3 are Version errors.
 #[kani::proof]
-#[kani::unwind(9)]
+#[kani::unwind(42)]
 fn c10_version_gate() {
-    let mut buf: [u8; 40] = kani::any();
+    let mut buf: [u8; 40] = crate::util::sym_bytes::<40>();
     let version: u64 = kani::any();
     let le = version.to_le_bytes();
     let mut i = 0;
@@ -129,7 +129,7 @@ fn c10_version_gate() {
 /// C20: open + accessors + verify never panic (CBMC's own checks are the
 /// assertions: bounds, overflow, unwrap, pointer validity).
 fn total<const N: usize>() {
-    let buf: [u8; N] = kani::any();
+    let buf: [u8; N] = crate::util::sym_bytes::<N>();
     let len: usize = kani::any();
     kani::assume(len <= N);
     match Fst::new(&buf[..len]) {
@@ -180,7 +180,7 @@ fn c20_open_total_64() {
 #[kani::proof]
 #[kani::unwind(41)]
 fn c20_map_set_total_40() {
-    let buf: [u8; 40] = kani::any();
+    let buf: [u8; 40] = crate::util::sym_bytes::<40>();
     let len: usize = kani::any();
     kani::assume(len <= 40);
     match fst::Map::new(&buf[..len]) {
@@ -207,7 +207,7 @@ fn c20_map_set_total_40() {
 #[kani::proof]
 #[kani::unwind(41)]
 fn c20_twin_must_fail() {
-    let buf: [u8; 40] = kani::any();
+    let buf: [u8; 40] = crate::util::sym_bytes::<40>();
     match Fst::new(&buf[..]) {
         Ok(f) => {
             core::mem::forget(f);
